@@ -282,7 +282,27 @@ static void raw_phase(rng_t *r, const char *path) {
     if (!raw) return;
     struct jls_chunk_header_s h;
     for (int q = 0; q < 30; ++q) {
-        switch (rng_below(r, 9)) {
+        switch (rng_below(r, 12)) {
+            case 9: case 10: case 11: {
+                /* raw writes (only meaningful when opened for writing; in "r" mode they must fail cleanly): a whole chunk, or
+                 * header and payload separately with a length argument that may differ from the header's - the payload buffer
+                 * is sized to the header, as raw.h documents */
+                struct jls_chunk_header_s w; memset(&w, 0, sizeof(w));
+                static const uint32_t ls[] = {0, 1, 16, 255, 256, 257, 268, 269, 300, 4096, 5000};
+                w.tag = rng_chance(r, 3, 4) ? JLS_TAG_USER_DATA : (uint8_t) rng_below(r, 256);
+                w.chunk_meta = (uint16_t) rng_below(r, 65536);
+                w.payload_length = RNG_PICK(r, ls);
+                uint8_t *b = malloc(w.payload_length ? w.payload_length : 1);
+                memset(b, 0x5a, w.payload_length ? w.payload_length : 1);
+                if (rng_chance(r, 1, 3)) CALL("jls_raw_wr", jls_raw_wr(raw, &w, b));
+                else {
+                    uint32_t larg = rng_chance(r, 1, 2) ? w.payload_length : RNG_PICK(r, ls);
+                    v_ctx("raw wr_header len=%u then wr_payload arg=%u", w.payload_length, larg);
+                    if (!CALL("jls_raw_wr_header", jls_raw_wr_header(raw, &w))) CALL("jls_raw_wr_payload", jls_raw_wr_payload(raw, larg, b));
+                }
+                free(b);
+                break;
+            }
             case 0: CALL("jls_raw_rd_header", jls_raw_rd_header(raw, rng_chance(r, 1, 4) ? NULL : &h)); break;
             case 1: { uint32_t sz = (uint32_t) rng_below(r, 600); uint8_t *b = malloc(sz ? sz : 1); CALL("jls_raw_rd_payload", jls_raw_rd_payload(raw, sz, b)); free(b); break; }
             case 2: { uint32_t sz = (uint32_t) rng_below(r, 3000); uint8_t *b = malloc(sz ? sz : 1); CALL("jls_raw_rd", jls_raw_rd(raw, &h, sz, b)); free(b); break; }
@@ -290,7 +310,13 @@ static void raw_phase(rng_t *r, const char *path) {
             case 4: CALL("jls_raw_chunk_prev", jls_raw_chunk_prev(raw)); break;
             case 5: CALL("jls_raw_item_next", jls_raw_item_next(raw)); break;
             case 6: CALL("jls_raw_item_prev", jls_raw_item_prev(raw)); break;
-            case 7: CALL("jls_raw_chunk_seek", jls_raw_chunk_seek(raw, rng_chance(r, 1, 2) ? (int64_t) (32 + 8 * rng_below(r, 400)) : pick_i64(r, 5000))); break;
+            case 7: {
+                int64_t to = rng_chance(r, 1, 2) ? (int64_t) (32 + 8 * rng_below(r, 400)) : pick_i64(r, 5000);
+                /* a write behind a seek to 2^40 makes a sparse terabyte file, which a linear scan then reads for hours:
+                 * legitimate, but not a termination question - far seeks only on files opened for reading */
+                if (mode[0] != 'r' && to > (1 << 24)) to = 1 << 20;
+                CALL("jls_raw_chunk_seek", jls_raw_chunk_seek(raw, to)); break;
+            }
             default: CALL("jls_raw_chunk_scan", jls_raw_chunk_scan(raw)); break;
         }
     }
